@@ -4,8 +4,11 @@
 //!
 //! * shape `T:<edges>` — cycle over template nodes `n0..`, `M:<edges>` — cycle over macro nodes
 //!   `m0..` of one template, `B:<edges>` — cycle over block nodes `b0..` of one template
-//!   (`<edges>` = comma separated `<kind><w><f><x>`: edge kind, number of `with` frames, number
-//!   of `for` frames and a variant of frame-local work wrapped around the recursive step),
+//!   (`<edges>` = comma separated `<kind><w><f><x><n>`: edge kind, number of `with` frames, number
+//!   of `for` frames, a variant of frame-local work wrapped around the recursive step and a
+//!   depth-neutral "noise" statement executed on the frame right before the step),
+//!   `N:<ctx><n>` — the noise statement `n` 1000 times in a loop at top level / inside an include /
+//!   a macro / a block / an include inside a macro (`ctx` = t, i, m, b, x),
 //!   `S:<n>:<v>` — chain of `n` nested `super()` calls, `L:<d>:<v>` — recursive `for` loop over
 //!   data nested `d` deep;
 //! * limit — `Environment::set_recursion_limit`;
@@ -16,7 +19,10 @@
 //! Every case runs the REAL engine in a child process (re-exec of this binary, `batch` mode), so
 //! a native stack overflow is observed as the child's death by signal.  Result line:
 //!
-//!   <case>\t<status>\t<hw_depth>\t<hw_native>\t<top kind>\t<root kind>\t<bytes>\t<overhead>
+//!   <case>\t<status>\t<hw_depth>\t<hw_native>\t<top kind>\t<root kind>\t<bytes>\t<overhead>\t<drift>
+//!
+//! drift: `-`, or `<construct>:<before>-><after>` for the first completed nested construct around
+//! which `Context::depth()` (read through `verif_hooks::recursion::depth_of`) was not restored.
 //!
 //! status: `ok` | `err:recursion` (root cause InvalidOperation "recursion limit exceeded") |
 //! `err:other:<kind>:<detail>` | `panic:<msg>` | `signal:<n>` | `exit:<code>`; `hw_*` are the
@@ -37,6 +43,7 @@ use std::collections::BTreeMap;
 use std::io::{BufRead, BufReader, Write};
 use std::process::{Command, Stdio};
 use std::sync::atomic::{AtomicI64, AtomicUsize, Ordering};
+use std::sync::Mutex;
 
 static BUDGET: AtomicI64 = AtomicI64::new(-1);
 static TICK_LOW: AtomicUsize = AtomicUsize::new(usize::MAX);
@@ -61,6 +68,82 @@ fn rb(state: &mut State, name: String) -> Result<Value, Error> {
     state.render_block(&name).map(Value::from_safe_string)
 }
 
+static DRIFT: Mutex<Option<String>> = Mutex::new(None);
+
+/// the current `Context::depth()`
+fn dp(state: &State) -> usize {
+    recursion::depth_of(state)
+}
+
+/// a completed nested construct must leave the depth as it found it
+fn chk(kind: String, before: usize, after: usize) -> String {
+    if before != after {
+        let mut d = DRIFT.lock().unwrap();
+        if d.is_none() {
+            *d = Some(format!("{kind}:{before}->{after}"));
+        }
+    }
+    String::new()
+}
+
+/// renders a block and swallows its error
+fn tryb(state: &mut State, name: String) -> String {
+    state.render_block(&name).unwrap_or_default()
+}
+
+/// `State::call_macro` from a function
+fn cmf(state: &mut State, name: String) -> Result<Value, Error> {
+    state.call_macro(&name, &[]).map(Value::from_safe_string)
+}
+
+fn fail() -> Result<Value, Error> {
+    Err(Error::new(ErrorKind::InvalidOperation, "boom"))
+}
+
+/// blocks the noise statements render through `State::render_block`; part of every template
+/// whose block table can be the current one
+const DEFS: &str = "{% if false %}{% block tinyblk %}t{% endblock %}{% block missblk %}{% include \"nope\" %}{% endblock %}{% block boomblk %}{% include \"boom\" %}{% endblock %}{% endif %}";
+
+const NOISE: [char; 12] = ['1', '2', '3', '4', '5', '6', '7', '8', '9', 'a', 'b', 'c'];
+
+fn noise_name(n: char) -> &'static str {
+    match n {
+        '1' => "include-missing",
+        '2' => "include-missing-list",
+        '3' => "include",
+        '4' => "import",
+        '5' => "from-import",
+        '6' => "macro-call",
+        '7' => "call-block",
+        '8' => "with-for",
+        '9' => "render_block",
+        'a' => "call_macro",
+        'b' => "swallowed-missing-include",
+        'c' => "swallowed-failing-include",
+        _ => "none",
+    }
+}
+
+/// a statement that opens and closes depth-affecting constructs, between two depth probes
+fn noise_src(n: char) -> String {
+    let src = match n {
+        '1' => "{% include \"nope\" ignore missing %}",
+        '2' => "{% include [\"nope1\", \"nope2\"] ignore missing %}",
+        '3' => "{% include \"tiny\" %}",
+        '4' => "{% import \"tinymod\" as tm %}{{ tm.f() }}",
+        '5' => "{% from \"tinymod\" import f %}{{ f() }}",
+        '6' => "{% macro nz() %}.{% endmacro %}{{ nz() }}",
+        '7' => "{% macro nw() %}[{{ caller() }}]{% endmacro %}{% call nw() %}c{% endcall %}",
+        '8' => "{% with a = 1 %}{% for i in [1] %}{{ i }}{% endfor %}{% endwith %}",
+        '9' => "{{ rb(\"tinyblk\") }}",
+        'a' => "{% macro nzm() %}m{% endmacro %}{{ cmf(\"nzm\") }}",
+        'b' => "{{ tryb(\"missblk\") }}",
+        'c' => "{{ tryb(\"boomblk\") }}",
+        _ => return String::new(),
+    };
+    format!("{{% set dq0 = dp() %}}{src}{{{{ chk(\"{}\", dq0, dp()) }}}}", noise_name(n))
+}
+
 // ------------------------------------------------------------------------------------ shapes
 
 #[derive(Clone, Debug)]
@@ -69,18 +152,20 @@ struct Edge {
     w: usize,
     f: usize,
     x: usize,
+    n: char,
 }
 
 fn parse_edges(s: &str) -> Vec<Edge> {
     s.split(',')
         .map(|e| {
             let c: Vec<char> = e.chars().collect();
-            assert!(c.len() == 4, "bad edge {e}");
+            assert!(c.len() == 5, "bad edge {e}");
             Edge {
                 kind: c[0],
                 w: c[1].to_digit(10).unwrap() as usize,
                 f: c[2].to_digit(10).unwrap() as usize,
                 x: c[3].to_digit(10).unwrap() as usize,
+                n: c[4],
             }
         })
         .collect()
@@ -101,6 +186,7 @@ fn body(e: &Edge, step: &str) -> String {
     for i in 0..e.f {
         s.push_str(&format!("{{% for fv{i} in [7] %}}"));
     }
+    s.push_str(&noise_src(e.n));
     s.push_str("{% if tick() %}");
     s.push_str(step);
     s.push_str("{% endif %}");
@@ -124,9 +210,60 @@ fn loop2(inner: &str) -> String {
 
 /// (templates, name of the template to render)
 fn build(shape: &str) -> Result<(BTreeMap<String, String>, String), String> {
+    let (mut t, entry) = build_inner(shape)?;
+    let fam = &shape[..1];
+    if matches!(fam, "T" | "M" | "B") {
+        // the blocks the noise statements render must be in every block table that can be current
+        let extends = t.contains_key("base");
+        for (name, src) in t.iter_mut() {
+            if extends && name == "main" {
+                continue;
+            }
+            *src = format!("{DEFS}{src}");
+        }
+    }
+    t.insert("tiny".into(), "t".into());
+    t.insert("tinymod".into(), "{% macro f() %}f{% endmacro %}".into());
+    t.insert("boom".into(), "{{ fail() }}".into());
+    Ok((t, entry))
+}
+
+fn build_inner(shape: &str) -> Result<(BTreeMap<String, String>, String), String> {
     let mut t = BTreeMap::new();
     let (fam, spec) = shape.split_once(':').ok_or("bad shape")?;
     match fam {
+        "N" => {
+            let c: Vec<char> = spec.chars().collect();
+            if c.len() != 2 {
+                return Err("bad N spec".into());
+            }
+            let name = noise_name(c[1]);
+            let inner = format!(
+                "{{% set dl0 = dp() %}}{{% for it in range(1000) %}}{}{{% endfor %}}{{{{ chk(\"loop-{name}\", dl0, dp()) }}}}",
+                noise_src(c[1])
+            );
+            match c[0] {
+                't' => {
+                    t.insert("main".into(), format!("{DEFS}{inner}"));
+                }
+                'i' => {
+                    t.insert("main".into(), "{% include \"inner\" %}".into());
+                    t.insert("inner".into(), format!("{DEFS}{inner}"));
+                }
+                'm' => {
+                    t.insert("main".into(), format!("{DEFS}{{% macro w() %}}{inner}{{% endmacro %}}{{{{ w() }}}}"));
+                }
+                'b' => {
+                    t.insert("main".into(), format!("{DEFS}{{% block blk %}}{inner}{{% endblock %}}"));
+                }
+                'x' => {
+                    t.insert("main".into(), "{% macro w() %}{% include \"inner\" %}{% endmacro %}{{ w() }}".into());
+                    t.insert("inner".into(), format!("{DEFS}{inner}"));
+                }
+                _ => return Err("bad N ctx".into()),
+            }
+            Ok((t, "main".into()))
+        }
         "T" => {
             let edges = parse_edges(spec);
             let n = edges.len();
@@ -275,12 +412,17 @@ fn run_here(shape: &str, limit: usize, budget: i64) -> String {
     let top = &top_marker as *const u8 as usize;
     let (templates, entry) = match build(shape) {
         Ok(x) => x,
-        Err(e) => return format!("bad-case:{e}\t0\t0\t-\t-\t0\t0"),
+        Err(e) => return format!("bad-case:{e}\t0\t0\t-\t-\t0\t0\t-"),
     };
     let mut env = Environment::new();
     env.set_recursion_limit(limit);
     env.add_function("tick", tick);
     env.add_function("rb", rb);
+    env.add_function("dp", dp);
+    env.add_function("chk", chk);
+    env.add_function("tryb", tryb);
+    env.add_function("cmf", cmf);
+    env.add_function("fail", fail);
     env.set_loader(move |name| Ok(templates.get(name).cloned()));
     let tree_depth = match shape.split(':').collect::<Vec<_>>()[..] {
         ["L", d, _] => d.parse().unwrap_or(0),
@@ -291,6 +433,7 @@ fn run_here(shape: &str, limit: usize, budget: i64) -> String {
     BUDGET.store(if budget == 0 { -1 } else { budget }, Ordering::Relaxed);
     TICK_LOW.store(usize::MAX, Ordering::Relaxed);
     recursion::reset();
+    *DRIFT.lock().unwrap() = None;
     let r = guarded(|| {
         let tmpl = env.get_template(&entry)?;
         let mut ctx = BTreeMap::new();
@@ -316,13 +459,14 @@ fn run_here(shape: &str, limit: usize, budget: i64) -> String {
     };
     // dropping deeply nested data must not be what overflows: done here, inside the case
     drop(tree);
-    format!("{status}\t{}\t{}\t{topk}\t{rootk}\t{bytes}\t{over}", m.depth_high_water, m.native_high_water)
+    let drift = DRIFT.lock().unwrap().take().unwrap_or_else(|| "-".into());
+    format!("{status}\t{}\t{}\t{topk}\t{rootk}\t{bytes}\t{over}\t{drift}", m.depth_high_water, m.native_high_water)
 }
 
 fn run_case(case: &str) -> String {
     let f: Vec<&str> = case.split(' ').collect();
     if f.len() != 4 {
-        return "bad-case:fields\t0\t0\t-\t-\t0\t0".into();
+        return "bad-case:fields\t0\t0\t-\t-\t0\t0\t-".into();
     }
     let shape = f[0].to_string();
     let limit: usize = f[1].parse().unwrap_or(0);
@@ -334,8 +478,8 @@ fn run_case(case: &str) -> String {
             .spawn(move || run_here(&shape, limit, budget))
             .unwrap()
             .join()
-            .unwrap_or_else(|_| "panic:thread\t0\t0\t-\t-\t0\t0".into()),
-        _ => "bad-case:thread\t0\t0\t-\t-\t0\t0".into(),
+            .unwrap_or_else(|_| "panic:thread\t0\t0\t-\t-\t0\t0\t-".into()),
+        _ => "bad-case:thread\t0\t0\t-\t-\t0\t0\t-".into(),
     }
 }
 
@@ -388,7 +532,7 @@ fn run_in_children(cases: &[String]) -> Vec<String> {
                         None => format!("exit:{}", status.code().unwrap_or(-1)),
                     };
                     let case = &part[results.len()];
-                    results.push(format!("{case}\t{what}\t0\t0\t-\t-\t0\t0"));
+                    results.push(format!("{case}\t{what}\t0\t0\t-\t-\t0\t0\t-"));
                 }
             }
             results
@@ -408,24 +552,35 @@ const M_KINDS: [char; 5] = ['M', 'A', 'C', 'L', 'J'];
 const B_KINDS: [char; 6] = ['B', 'V', 'R', 'M', 'L', 'S'];
 
 fn edge_str(kind: char, rng: &mut Rng, plain: bool) -> String {
+    // every frame carries a depth-neutral noise statement
+    let n = *rng.pick(&NOISE);
     if plain {
-        format!("{kind}000")
+        format!("{kind}000{n}")
     } else {
-        format!("{kind}{}{}{}", rng.below(3), rng.below(3), rng.below(4))
+        format!("{kind}{}{}{}{n}", rng.below(3), rng.below(3), rng.below(4))
     }
 }
 
 fn shapes(thorough: bool, rng: &mut Rng) -> Vec<String> {
     let mut v: Vec<String> = vec![];
-    // pure cycles of each edge kind (no extra work), length 1 and 2
-    for (fam, kinds) in [("T", &T_KINDS[..]), ("M", &M_KINDS[..]), ("B", &B_KINDS[..])] {
+    let fams = [("T", &T_KINDS[..]), ("M", &M_KINDS[..]), ("B", &B_KINDS[..])];
+    // pure cycles of each edge kind (no extra work, no noise: the stack measurements), length 1 and 2
+    for (fam, kinds) in fams {
         for k in kinds {
-            v.push(format!("{fam}:{k}000"));
-            v.push(format!("{fam}:{k}000,{k}000"));
+            v.push(format!("{fam}:{k}0000"));
+            v.push(format!("{fam}:{k}0000,{k}0000"));
+        }
+    }
+    // every edge kind with every depth-neutral noise statement on its frame
+    for (fam, kinds) in fams {
+        for k in kinds {
+            for n in NOISE {
+                v.push(format!("{fam}:{k}000{n}"));
+            }
         }
     }
     // the same with frame-local work
-    for (fam, kinds) in [("T", &T_KINDS[..]), ("M", &M_KINDS[..]), ("B", &B_KINDS[..])] {
+    for (fam, kinds) in fams {
         for k in kinds {
             v.push(format!("{fam}:{}", edge_str(*k, rng, false)));
         }
@@ -433,11 +588,7 @@ fn shapes(thorough: bool, rng: &mut Rng) -> Vec<String> {
     // mixed cycles of length 2..4
     let n_mixed = if thorough { 2700 } else { 42 };
     for i in 0..n_mixed {
-        let (fam, kinds) = match i % 3 {
-            0 => ("T", &T_KINDS[..]),
-            1 => ("M", &M_KINDS[..]),
-            _ => ("B", &B_KINDS[..]),
-        };
+        let (fam, kinds) = fams[i % 3];
         let len = 2 + rng.below(3) as usize;
         let es: Vec<String> = (0..len)
             .map(|_| {
@@ -479,11 +630,20 @@ fn cases(tier: &str) -> Vec<String> {
         }
     }
     // a limit above the maximum is clamped (no `stacker`): behaves like the default
-    for sh in shapes.iter().filter(|s| !s.contains(',') && s.ends_with("000")) {
+    for sh in shapes.iter().filter(|s| !s.contains(',') && s.ends_with("0000")) {
         for th in ["main", "t2m"] {
             out.push(format!("{sh} 100000 0 {th}"));
         }
         out.push(format!("{sh} 501 170 t2m"));
+    }
+    // drift detection: every noise statement 1000 times in a loop, in every surrounding
+    for ctx in ['t', 'i', 'm', 'b', 'x'] {
+        for n in NOISE {
+            for &limit in &[1usize, 2, 10, 30, 100, 500] {
+                out.push(format!("N:{ctx}{n} {limit} 0 t2m"));
+            }
+            out.push(format!("N:{ctx}{n} 500 0 main"));
+        }
     }
     // super chains and recursive loops: below, at and above the limit
     for &limit in &limits {
